@@ -14,6 +14,27 @@ CHECKS = {
         note='Trusted: vlib/wire.py reference decode (int.from_bytes on literal slices), CPython struct. 2^512 is '
              'sampled with structure, not enumerated.',
         technique='icontract post-condition on the real decoder + lock-step reference model + bit-flip locality oracle'),
+    'C02': dict(
+        category='exploration', design_ref='DESIGN.md section 4, C02',
+        text='Runtime monitoring: generated v2 files (independent builder = ground-truth model) are parsed by the real '
+             'container parser through both entry points, in histories that re-use one parser object / one pair of '
+             'dicts and alternate v2 and v3 files; the observed event stream and tables are compared with the model, '
+             'accepting any valid decomposition of genuinely ambiguous files. Held-on-observed-executions.',
+        note='Trusted: vlib/wire.py v2 builder (layout restated from the declarative struct), construct, plistlib. '
+             'Open known finding: greedy zero padding eats leading zero bytes of the first record '
+             '(known_findings.json).',
+        technique='generated-file workload + reference-model oracle over the observed stream and tables, parse '
+                  'histories on shared state, from_kd_buf contract attached'),
+    'C03': dict(
+        category='exploration', design_ref='DESIGN.md section 4, C03',
+        text='Runtime monitoring: generated v3 files (chunkings, hostile fillers with partial marker prefixes, blocks '
+             'in random order/multiplicity, padded and unpadded last block, log records) parsed by the real parser; '
+             'stream order, per-event equality, chunking metamorphism, metadata attributes, log decoding through the '
+             'inverted string index and the resulting tables are compared with the generator model.',
+        note='Trusted: vlib/wire.py V3Spec builder and vlib/logs.py reference log decoder; fillers are sanitised so '
+             'that files are unambiguous; the v3 layout is the one the parser\'s declarative structs define (no real '
+             'ktrace file available offline).',
+        technique='generated-file workload + reference-model oracle, chunking metamorphism, from_kd_buf contract'),
 }
 
 PENDING_REASON = 'check not yet built in this session (design in DESIGN.md section 4); not claimed until it exists'
